@@ -2,7 +2,7 @@
 
 Case line (kind `a10`), fields separated by `|`:
 
-  a10 | n=<N> [W=1] | F=<k:spec,…> | C=<class>;<class>;… | H=<beh,…> | op;op;…
+  a10 | n=<N> [W=1] | F=<k:spec,…> [K=<j:code,…>] | C=<class>;<class>;… | H=<beh,…> | op;op;…
 
   pool     ids 0..N-1 are atoms (0 Uninitialized, 1 Undefined, 2 None, 3.. distinct ints); every other identity is
            allocated by the run (instances, containers) and printed as #k in order of first appearance
@@ -12,13 +12,18 @@ Case line (kind `a10`), fields separated by `|`:
            returns a fresh list [a, b] (a failing default followed by a successful retry);
            upper case first letter = built into the trait type (Tuple / Union), not instrumented.
            W=1: the run turns UserWarning into an error (the `_warn_on_attribute_error` path)
+  K        reusable trait definitions: ONE CTrait object (`Any(...).as_ctrait()`, like a module-level `Trait(0.0)`)
+           that the case binds to several names, in several classes, and/or adds to several instances;
+           code c<v> or fa<k>; referred to as member k<j>
   class    <base index or ->:<name>=<member>[~k][/hK],…  with member
            c<v> Any(atom) · al<a.b> Any([a,b]) · ad<a.b> Any({..}) · L/D/S<a.b> List/Dict/Set(Int) with default ·
            fa<k> Any(factory=F[k]) · T<k> Tuple(List(Int), Int) · U<k> Union(List(Int), None) · o self() ·
            v<v> / vl<a.b> / vd<a.b> plain value overriding the inherited trait · i inherited unchanged;
            ~k : the class body defines _name_default = F[k];  /hK : the class body defines _name_changed = handler K
   ops      new k · get i n · set i n v · mut i n x (append / add / setitem on the value read) ·
-           mui i n x (append to element 0 of the value read) · rd i n h · ro i n h · ra i h · at i n <member>
+           mui i n x (append to element 0 of the value read) · rd i n h · ro i n h · ra i h · at i n <member> ·
+           rdi i n h (on_trait_change(h, "<name>_items"); only in `#` cases = real code + oracle only: the items
+           events of containers belong to the seq/map/set clusters' models)
 
 Output per op:  ok|err <Exc> v=<value> c=[inst:h:old>new,…] f=[factory indices called] :: <view of every instance>
 """
@@ -107,10 +112,12 @@ OVERRIDABLE = {"fr": ["v", "vl"], "mr": ["v", "vl"], "c": ["v", "vl", "vd"], "al
                "fe": ["v", "vl"], "m": ["v", "vl"], "me": ["v"], "o": ["v", "vl"]}
 
 
-def mk_case(F, classes, H, ops, W=0):
-    return "a10|n=%d%s|F=%s|C=%s|H=%s|%s" % (NATOMS, " W=1" if W else "",
-                                           ",".join("%d:%s" % (i, s) for i, s in enumerate(F)) or "-",
-                                           ";".join(classes), ",".join(H) or "o", ";".join(ops))
+def mk_case(F, classes, H, ops, W=0, K=(), impl_only=False):
+    return "%sa10|n=%d%s|F=%s%s|C=%s|H=%s|%s" % (
+        "#" if impl_only else "", NATOMS, " W=1" if W else "",
+        ",".join("%d:%s" % (i, s) for i, s in enumerate(F)) or "-",
+        (" K=" + ",".join("%d:%s" % (i, s) for i, s in enumerate(K))) if K else "",
+        ";".join(classes), ",".join(H) or "o", ";".join(ops))
 
 
 def corpus():
@@ -293,7 +300,10 @@ class Run:
         self.N = int(hdr["n"])
         self.W = hdr.get("W") == "1"
         self.fraised = []         # (global ordinal, exception class name) of factory calls that raised
-        self.F = [] if f[2] == "F=-" else [e.split(":", 1)[1] for e in f[2][2:].split(",")]
+        fk = A.kv(f[2])
+        self.F = [] if fk["F"] == "-" else [e.split(":", 1)[1] for e in fk["F"].split(",")]
+        self.K = [e.split(":", 1)[1] for e in fk["K"].split(",")] if "K" in fk else []
+        self.shared = None
         self.class_specs = f[3][2:].split(";")
         self.H = f[4][2:].split(",")
         self.ops = [o.split() for o in f[5].split(";") if o.strip()]
@@ -387,6 +397,10 @@ class Run:
         from traits.api import self as self_trait
         A_ = self.A
         xs = lambda s: [A_[int(x)] for x in s.split(".") if x != ""]     # noqa: E731
+        if code[0] == "k":
+            if self.shared is None:       # the reusable CTrait objects of this run
+                self.shared = [self.member(c).as_ctrait() for c in self.K]
+            return self.shared[int(code[1:])]
         if code == "o":
             return self_trait()
         if code.startswith("al"):
@@ -500,6 +514,7 @@ class Run:
         outs = []
         self.per_op = []       # (op, exc, val, log delta, fcalls delta)
         self.raised_ops = []   # (op, exc, factory raises during the op, slot stored afterwards, log delta)
+        self.read_structs = [] # structure of the value read by the op, at the time of the read
         with A.ExcHandlers(False, False), warnings.catch_warnings():
             warnings.simplefilter("ignore")
             if self.W:
@@ -509,7 +524,7 @@ class Run:
                 if skip is not None and k != "new" and int(op[1]) == skip:
                     continue
                 log0, f0, r0 = len(self.log), len(self.fcalls), len(self.fraised)
-                exc, val, read = None, A, A
+                exc, val, read, read_struct = None, A, A, None
                 self.cur = None
                 try:
                     if k == "new":
@@ -538,6 +553,7 @@ class Run:
                                 setattr(o, name, self.A[int(op[3])])
                             elif k == "mut":
                                 read = getattr(o, name)
+                                read_struct = structure(self, read)
                                 x = self.A[int(op[3])]
                                 if isinstance(read, dict):
                                     read[200 + int(op[3])] = x
@@ -557,6 +573,8 @@ class Run:
                                 val = read[0]
                             elif k == "rd":
                                 o.on_trait_change(self.dyn(int(op[3]), name), name)
+                            elif k == "rdi":
+                                o.on_trait_change(self.dyn(int(op[3]), name + "_items"), name + "_items")
                             elif k == "ro":
                                 o.observe(self.obs(int(op[3])), name)
                             elif k == "at":
@@ -610,7 +628,8 @@ def structure(run, o, depth=0):
             return "inst%d" % idx[id(o)]
         return type(o).__name__
     inner = sorted(structure(run, e, depth + 1) for e in es)
-    return "%s[%s]" % ("seq" if not isinstance(o, (dict, set)) else type(o).__name__[-4:].lower(), ",".join(inner))
+    return "%s[%s]" % ("dict" if isinstance(o, dict) else "set" if isinstance(o, (set, frozenset)) else "seq",
+                       ",".join(inner))
 
 
 def containers(run, o, depth=0, acc=None):
@@ -624,6 +643,80 @@ def containers(run, o, depth=0, acc=None):
     return acc
 
 
+def resolve_shared(run, code):
+    """k<j>[~f] -> the code of the reusable definition j (keeping the ~f part)."""
+    m, sep, d = code.partition("~")
+    if m.startswith("k"):
+        m = run.K[int(m[1:])]
+    return m + sep + d
+
+
+def _seq(kind, items):
+    return "%s[%s]" % (kind, ",".join(sorted(items)))
+
+
+def spec_structure(spec):
+    """Structure of what factory spec returns (None = raises / unknown)."""
+    c = spec[0].lower()
+    xs = [x for x in spec[1:].split(".") if x != ""]
+    if c == "e":
+        return "p%s" % xs[0]
+    if c == "f":
+        return _seq("seq", ["p" + x for x in xs])
+    if c == "t":
+        return _seq("seq", ["p" + xs[0], "seq[]"])
+    return None
+
+
+def member_structure(run, code, inst):
+    """Structure of the declared default of a member code (None = unknown)."""
+    xs = lambda t: ["p" + x for x in t.split(".") if x != ""]     # noqa: E731
+    if code == "o":
+        return "inst%d" % inst
+    if code.startswith("al") or code.startswith("vl"):
+        return _seq("seq", xs(code[2:]))
+    if code.startswith("ad") or code.startswith("vd"):
+        return _seq("dict", xs(code[2:]))
+    if code.startswith("fa"):
+        return spec_structure(run.F[int(code[2:])])
+    if code[0] in "cv":
+        return "p" + code[1:]
+    if code[0] == "L":
+        return _seq("seq", xs(code[1:]))
+    if code[0] == "D":
+        return _seq("dict", xs(code[1:]))
+    if code[0] == "S":
+        return _seq("set", xs(code[1:]))
+    if code[0] in "TU":
+        return spec_structure(run.F[int(code[1:])])
+    return None
+
+
+def declared_default(run, ci, name, inst):
+    """The declared default of class ci / name, from the declarations alone: the last member declared along the
+    base chain, replaced by the result of the `_name_default` of the class that declares one (a subclass that
+    re-declares the trait drops the base's `_name_default`; one that only inherits keeps it)."""
+    chain = []
+    k = ci
+    while True:
+        bs, ds = run.class_specs[k].split(":", 1)
+        for d in ds.split(","):
+            n, rhs = d.split("=", 1)
+            if "x" + n == name:
+                chain.append(resolve_shared(run, rhs.split("/h")[0]))
+        if bs == "-":
+            break
+        k = int(bs)
+    cur = None
+    for code in reversed(chain):
+        m, sep, d = code.partition("~")
+        if m != "i":
+            cur = member_structure(run, m, inst)
+        if sep:
+            cur = spec_structure(run.F[int(d)])
+    return cur
+
+
 def kind_of(run, ci, name):
     """Label of the default kind in effect for class ci / name (for signatures)."""
     lab = None
@@ -635,7 +728,7 @@ def kind_of(run, ci, name):
         for d in ds.split(","):
             n, rhs = d.split("=", 1)
             if "x" + n == name:
-                chain.append(rhs.split("/h")[0])
+                chain.append(resolve_shared(run, rhs.split("/h")[0]))
         if bs == "-":
             break
         k = int(bs)
@@ -701,11 +794,14 @@ def run_impl(case):
             hits.append(_hit("default-computed-twice:" + kind_of(real, ci, "x%d" % n),
                              "default factory / _name_default ran %d times for instance %d attribute x%d" % (c, i, n)))
     assigned = set()
-    for (op, exc, val, dlog, dfc) in real.per_op:
+    added = {}              # (instance, name index) -> member code added with add_trait
+    for opi, (op, exc, val, dlog, dfc) in enumerate(real.per_op):
         k = op[0]
         if k in ("set", "at"):
             if k == "set":
                 assigned.add((int(op[1]), int(op[2])))
+            elif exc is None:
+                added[(int(op[1]), int(op[2]))] = resolve_shared(real, op[3])
             continue
         if k in ("get", "mut", "mui") and val is not A:
             key = (int(op[1]), int(op[2]))
@@ -714,6 +810,15 @@ def run_impl(case):
             if key not in first_val and key not in assigned:
                 first_val[key] = val
                 tags.add("first-read:" + lab)
+                # the first read returns the DECLARED default (by structure; identities are the freshness clause's)
+                if k != "mui":
+                    want = (member_structure(real, added[key], key[0]) if key in added
+                            else declared_default(real, ci, "x%d" % key[1], key[0]))
+                    got_s = real.read_structs[opi]
+                    if want is not None and got_s is not None and got_s != want:
+                        hits.append(_hit("first-read-not-declared-default:" + lab,
+                                         "first read of x%d on instance %d returned %s, the declared default is %s" % (
+                                             key[1], key[0], got_s, want)))
                 if dlog:
                     hits.append(_hit("default-read-notified:" + lab, "first read of a default reached a handler",
                                      calls=len(dlog)))
@@ -722,6 +827,28 @@ def run_impl(case):
                     hits.append(_hit("default-not-stable:" + lab, "a later read returned a different object"))
                 if dfc:
                     hits.append(_hit("default-recomputed-on-read:" + lab, "a later read ran the default factory again"))
+    # ---- a handler registered on one instance hears about that instance only
+    reg_on = {}
+    for o in ops:
+        if o[0] in ("rd", "ro", "rdi"):
+            reg_on.setdefault(int(o[3]), set()).add(int(o[1]))
+        elif o[0] == "ra":
+            reg_on.setdefault(int(o[2]), set()).add(int(o[1]))
+    statics = []
+    for ci, spec in enumerate(real.class_specs):
+        own = {int(d.split("/h")[1]) for d in spec.split(":", 1)[1].split(",") if "/h" in d}
+        bs = spec.split(":", 1)[0]
+        statics.append(own | (statics[int(bs)] if bs != "-" else set()))
+    idx_of = {id(o): i for i, (o, _) in enumerate(real.objs)}
+    for ob, h, old, new in real.log:
+        j = idx_of.get(id(ob))
+        if j is None:
+            continue
+        if h not in statics[real.objs[j][1]] and j not in reg_on.get(h, ()):
+            hits.append(_hit("handler-heard-other-instance",
+                             "handler %d, registered on instance(s) %s only, was called for instance %d" % (
+                                 h, sorted(reg_on.get(h, ())), j)))
+            break
     # ---- a raising default: passed through (same class; UserWarning instead of AttributeError when warnings are
     # errors), nothing stored, nobody notified
     for (op, exc, raised, stored, dlog) in real.raised_ops:
